@@ -210,8 +210,11 @@ Theorem c19_lu_c_finite_is_lu (K : CField) (M : Type) nrm2 mulM ltM zeroM scale_
 Proof. exact (lu_c_finite_is_lu K M nrm2 mulM ltM zeroM scale_of_max isz). Qed.
 Print Assumptions c19_lu_c_finite_is_lu.
 
-(* the test applied at 6 of the 11 determinant call sites, `d == 0.0 || !isnormal(cabs(d))`, rejects
-   exactly the singular matrices *)
+(* the test applied at all 11 determinant call sites (translate/lu_scale.py reads them on every run),
+   `d == 0.0 || !isnormal(cabs(d))`, rejects exactly the singular matrices -- (EXACT FIELD): site_rejects_full
+   models the test as "d is 0 or NaN"; in binary64 !isnormal also rejects subnormal determinants, e.g. the regular
+   1e-40 I_8 (det 1e-320), and the outcome model assumes eliminations whose pivot * reciprocal products are
+   exact (see c19_duplicated_rows_rejected_exact_field / finding DL90) *)
 Theorem c19_singular_iff_rejected (K : CField) (M : Type) (nrm2 : K -> M) (mulM : M -> M -> M)
     (ltM : M -> M -> bool) (zeroM : M) (scale_of_max : M -> M) (isz : K -> bool) :
   (forall x : K, isz x = true <-> x = c0) ->
@@ -229,9 +232,11 @@ Theorem c19_singular_iff_rejected (K : CField) (M : Type) (nrm2 : K -> M) (mulM 
 Proof. exact (lu_c_rejects_iff_singular K M nrm2 mulM ltM zeroM scale_of_max isz). Qed.
 Print Assumptions c19_singular_iff_rejected.
 
-(* the bare test `d == 0.0` (the five V-matrix call sites of vnacal_new_solve_update_v_matrices.c)
-   rejects a singular matrix only when no pivot before the last column is zero *)
-Theorem c19_eq0_test_partial (K : CField) (M : Type) (nrm2 : K -> M) (mulM : M -> M -> M)
+(* MODEL VARIANT, no call site uses it any more (the five V-matrix inversions of
+   vnacal_new_solve_update_v_matrices.c tested `d == 0.0` only until /repo commit 4cbe857, former finding DL2;
+   all 11 sites now apply the full test): the bare test `d == 0.0` would reject a singular matrix only when no
+   pivot before the last column is zero.  Kept as the regression statement for that change. *)
+Theorem model_variant_eq0_test_partial (K : CField) (M : Type) (nrm2 : K -> M) (mulM : M -> M -> M)
     (ltM : M -> M -> bool) (zeroM : M) (scale_of_max : M -> M) (isz : K -> bool) :
   (forall x : K, isz x = true <-> x = c0) ->
   (forall x, ltM x x = false) ->
@@ -246,15 +251,15 @@ Theorem c19_eq0_test_partial (K : CField) (M : Type) (nrm2 : K -> M) (mulM : M -
   (site_rejects_eq0 K isz (lu_c_det K M (lu_c K M nrm2 mulM ltM zeroM scale_of_max isz a n)) = true
    <-> singular K a n /\ forall k, k < n - 1 -> pivot_at K M nrm2 mulM ltM zeroM scale_of_max a n k <> c0).
 Proof. exact (lu_c_eq0_test K M nrm2 mulM ltM zeroM scale_of_max isz). Qed.
-Print Assumptions c19_eq0_test_partial.
+Print Assumptions model_variant_eq0_test_partial.
 
-(* ... and "a singular matrix is always caught by == 0.0" is false of the code as it is (known
-   finding DL2): [[0,1],[0,2]] over Q[i] *)
-Theorem c19_eq0_test_accepts_singular_refuted :
+(* ... and "a singular matrix is always caught by == 0.0" is false (why the repaired call sites use the full
+   test): [[0,1],[0,2]] over Q[i] *)
+Theorem model_variant_eq0_test_accepts_singular_refuted :
   exists (a : mat QIF) n, wf n n a /\ singular QIF a n /\
     site_rejects_eq0 QIF qi_isz (lu_c_det QIF Qc (q2_lu_c_recip a n)) = false.
 Proof. exact eq0_test_accepts_singular_refuted. Qed.
-Print Assumptions c19_eq0_test_accepts_singular_refuted.
+Print Assumptions model_variant_eq0_test_accepts_singular_refuted.
 
 (* the three solvers as the C code behaves (None = the output array holds inf / NaN) *)
 Theorem c19_solvers_as_coded_nonsingular (K : CField) (M : Type) (nrm2 : K -> M) (mulM : M -> M -> M)
@@ -618,7 +623,8 @@ Proof. exact (singular_iff_det_zero K M nrm2 mulM ltM zeroM scale_of_max). Qed.
 Print Assumptions c19_singular_iff_det_zero.
 
 (* what _vnacommon_lu returns (outcome model lu_c): a finite value IS det A (so 0 is returned only when
-   det A = 0); NaN is returned only when det A = 0; the full call-site test rejects exactly det A = 0 *)
+   det A = 0); NaN is returned only when det A = 0; the full call-site test rejects exactly det A = 0
+   (EXACT FIELD: see the remark at c19_singular_iff_rejected and finding DL90) *)
 Theorem c19_lu_c_det_is_det (K : CField) (M : Type) (nrm2 : K -> M) (mulM : M -> M -> M)
     (ltM : M -> M -> bool) (zeroM : M) (scale_of_max : M -> M) :
   (forall x, ltM x x = false) ->
@@ -823,7 +829,10 @@ Proof. exact (mrdivide_row_order_independent K M nrm2 mulM ltM zeroM scale_of_ma
 Print Assumptions c19_mrdivide_row_order_independent.
 
 (* row SCALING at the solution level, every n (reciprocal row scale invM): scaling row i of (A, b) by d_i <> 0
-   leaves the pivot rows and row_index unchanged and mldivide returns the same entries (exact arithmetic) *)
+   leaves the pivot rows and row_index unchanged (conjuncts 1-3: statements about the coded pivot search) and
+   mldivide returns the same entries (conjunct 4: exact arithmetic, BY UNIQUENESS of the solution of a nonsingular
+   system -- any exact solver satisfies it; it says nothing about binary64 row scaling (D25), which is covered by
+   the tie only: bitwise for power-of-two factors) *)
 Theorem c19_mldivide_row_scale_invariant (K : CField) (M : Type) (nrm2 : K -> M) (mulM : M -> M -> M)
     (ltM : M -> M -> bool) (zeroM : M) :
   (forall x, mulM x zeroM = zeroM) ->
@@ -881,3 +890,34 @@ Theorem c19_qrsolve_minimises_QI m n o (a b : mat QIF) : wf m n a -> n <= m ->
     forall y : mat QIF, (res2 m n o a X b <= res2 m n o a y b)%Qc.
 Proof. exact (qq_qrsolve_minimises m n o a b). Qed.
 Print Assumptions c19_qrsolve_minimises_QI.
+
+(* ---- duplicated equations (review round 3).  EXACT FIELD: two equal rows => det A = 0 (every n), and the outcome
+   model of _vnacommon_lu returns 0 or NaN, rejected by the full call-site test.  What this assumes about the C
+   code: the L terms are s * (1/p) with an exact reciprocal, so the twin of the pivot row gets the L term 1.  In
+   binary64 `scale = 1.0 / A(j,j); A(i,j) *= scale` gives fl(p * fl(1/p)) <> 1 for about 15 % of the pivots p: the
+   C code then does NOT meet a zero pivot on duplicated rows (finding DL90: [[49,1],[49,1]] is accepted with
+   det 5.4e-15; tie 3f reports it).  The run_no_tie premise of the row-order theorems compares only candidates whose
+   metric is above 0 (LuRowOrderNoTie.col_no_tie; example on diag(50,75,100): ex_row_order_diagonal). *)
+Require Import LV.Lin.LuDetDupRows.
+
+Theorem c19_duplicated_rows_det_zero (K : CField) n (a : mat K) i j : wf n n a -> i < n -> j < n -> i <> j ->
+  (forall c, c < n -> mget K a i c = mget K a j c) -> det_lap K n a = c0.
+Proof. exact (dup_rows_det_zero K n a i j). Qed.
+Print Assumptions c19_duplicated_rows_det_zero.
+
+Theorem c19_duplicated_rows_rejected_exact_field (K : CField) (M : Type) (nrm2 : K -> M) (mulM : M -> M -> M)
+    (ltM : M -> M -> bool) (zeroM : M) (scale_of_max : M -> M) (isz : K -> bool) :
+  (forall x : K, isz x = true <-> x = c0) ->
+  (forall x, ltM x x = false) ->
+  (forall x y z, ltM x y = true -> ltM y z = true -> ltM x z = true) ->
+  (forall x y z, ltM x z = true -> ltM x y = false -> ltM y z = true) ->
+  (forall x y, ltM zeroM x = true -> ltM zeroM y = true -> ltM zeroM (mulM x y) = true) ->
+  (forall x, mulM x zeroM = zeroM) ->
+  nrm2 c0 = zeroM ->
+  (forall x : K, x <> c0 -> ltM zeroM (nrm2 x) = true) ->
+  (forall x, ltM zeroM x = true -> ltM zeroM (scale_of_max x) = true) ->
+  forall n (a : mat K) i j, wf n n a -> i < n -> j < n -> i <> j ->
+  (forall c, c < n -> mget K a i c = mget K a j c) ->
+  site_rejects_full K isz (lu_c_det K M (lu_c K M nrm2 mulM ltM zeroM scale_of_max isz a n)) = true.
+Proof. exact (dup_rows_rejected_exact_field K M nrm2 mulM ltM zeroM scale_of_max isz). Qed.
+Print Assumptions c19_duplicated_rows_rejected_exact_field.
